@@ -83,7 +83,10 @@ func HandleUpdatePlan(p *UpdatePlan) error {
 		return fmt.Errorf("handle OrderBy error: %v", err)
 	}
 
-	// Limit clause does not need to handle
+	// Limit clause is sent to the sub tables as it is
+	if err := checkOrderByLimitInModify(p.StmtInfo, p.stmt.Order, p.stmt.Limit); err != nil {
+		return err
+	}
 
 	// handle global table
 	if err := postHandleGlobalTableRouteResultInModify(p.StmtInfo); err != nil {
@@ -96,6 +99,22 @@ func HandleUpdatePlan(p *UpdatePlan) error {
 	}
 
 	p.sqls = sqls
+	return nil
+}
+
+// checkOrderByLimitInModify rejects UPDATE / DELETE ... ORDER BY ... LIMIT n on a sharded table when it is
+// routed to more than one sub table: the statement names the first n rows of the order, but every sub table
+// would take its own first n rows.
+func checkOrderByLimitInModify(p *StmtInfo, order *ast.OrderByClause, limit *ast.Limit) error {
+	if order == nil || len(order.Items) == 0 || limit == nil {
+		return nil
+	}
+	if len(p.tableRules) == 0 {
+		return nil // the copies of a global table hold the same rows
+	}
+	if len(p.GetRouteResult().GetShardIndexes()) > 1 {
+		return fmt.Errorf("does not support ORDER BY with LIMIT on more than one sub table in sharding")
+	}
 	return nil
 }
 
